@@ -808,20 +808,23 @@ func genNode(t *rapid.T, ctx *genCtx, depth int) *Node {
 	return m
 }
 
-func TestPropTree(t *testing.T) {
-	treeProp.Rapid(t, func(t *rapid.T) TreeCase {
-		ctx := &genCtx{
-			allowInvalid: rapid.IntRange(0, 11).Draw(t, "allowInvalid") == 0,
-			allowDup:     rapid.IntRange(0, 9).Draw(t, "allowDup") == 0,
-			maxDepth:     rapid.IntRange(2, 5).Draw(t, "maxDepth"),
-		}
-		n := rapid.SampledFrom([]int{1, 1, 1, 2, 3}).Draw(t, "nitems")
-		var c TreeCase
-		for i := 0; i < n; i++ {
-			c.Items = append(c.Items, genNode(t, ctx, 1))
-		}
-		return c
-	})
+func TestPropTree(t *testing.T) { treeProp.Rapid(t, genPropTree) }
+
+// TestConcTree: batches of cases evaluated at the same time on separate goroutines (vh.Prop.Concurrent).
+func TestConcTree(t *testing.T) { treeProp.Concurrent(t, genPropTree, 8, 3) }
+
+func genPropTree(t *rapid.T) TreeCase {
+	ctx := &genCtx{
+		allowInvalid: rapid.IntRange(0, 11).Draw(t, "allowInvalid") == 0,
+		allowDup:     rapid.IntRange(0, 9).Draw(t, "allowDup") == 0,
+		maxDepth:     rapid.IntRange(2, 5).Draw(t, "maxDepth"),
+	}
+	n := rapid.SampledFrom([]int{1, 1, 1, 2, 3}).Draw(t, "nitems")
+	var c TreeCase
+	for i := 0; i < n; i++ {
+		c.Items = append(c.Items, genNode(t, ctx, 1))
+	}
+	return c
 }
 
 // ------------------------------------------------------------------------------- sub-check "ints"
